@@ -231,6 +231,9 @@ fn fading_cases(t: Tier) -> Vec<Case> {
         for variant in 0..3i64 {
             out.push(Case { spec: Some(spec.clone()), ints: vec![variant], a: Rat(1, 1), ..Default::default() });
         }
+        // variant 4: the common tail is constant (two streams that become identical and flat): no persistent excitation to wash
+        // a difference out, the view's own dynamics must do it
+        out.push(Case { spec: Some(spec.clone()), ints: vec![4], a: Rat(1, 1), ..Default::default() });
         // variant 3: one prefix of 135 000 values (past 2^16 and 2^17 updates) against an empty one, for a subset of the windows
         if matches!(spec.max_window(), 0 | 3 | 5 | 16 | 64) {
             out.push(Case { spec: Some(spec.clone()), ints: vec![3], a: Rat(1, 1), ..Default::default() });
@@ -241,7 +244,7 @@ fn fading_cases(t: Tier) -> Vec<Case> {
 fn fading_check_inner(spec: &Spec, variant: i64, seed: u64) -> Verdict {
     let t_h = horizon(spec);
     let n = spec.max_window().max(2);
-    let id = format!("C09/fading|{}", tagn(spec));
+    let id = format!("C09/{}|{}", if variant == 4 { "fading_flat_tail" } else { "fading" }, tagn(spec));
     // prefixes: different length, scale (up to 2^20 x) and shape; common persistently exciting tail (noise around a level)
     let (p1, p2): (Vec<f64>, Vec<f64>) = {
         let mut n1 = noise(seed ^ 0x11, 1.0);
@@ -250,12 +253,13 @@ fn fading_check_inner(spec: &Spec, variant: i64, seed: u64) -> Verdict {
             0 => ((0..3 * n + 7).map(|_| 100.0 + 50.0 * n1()).collect(), vec![]),
             1 => ((0..5 * n).map(|_| (1u64 << 20) as f64 * (1.0 + n1())).collect(), (0..2 * n + 3).map(|_| 100.0 + n2()).collect()),
             3 => ((0..135_000).map(|_| 100.0 + 50.0 * n1()).collect(), vec![]),
+            4 => ((0..3 * n + 7).map(|_| 100.0 + 50.0 * n1()).collect(), (0..2 * n + 3).map(|_| 100.0 - 30.0 * n2().abs()).collect()),
             _ => ((0..4 * n).map(|t| if t % 2 == 0 { 1000.0 } else { -1000.0 }).collect(), (0..n + 1).map(|_| 0.0).collect()),
         }
     };
     let scale = 100.0;
     let mut nz = noise(seed ^ 0x7A11, 0.5 * scale);
-    let tail: Vec<f64> = (0..2 * t_h).map(|_| scale + nz()).collect();
+    let tail: Vec<f64> = (0..2 * t_h).map(|_| if variant == 4 { scale } else { scale + nz() }).collect();
     let r1 = run(spec, p1.iter().copied().chain(tail.iter().copied()));
     let r2 = run(spec, p2.iter().copied().chain(tail.iter().copied()));
     let (o1, o2) = match (r1, r2) {
